@@ -548,19 +548,16 @@ impl Typer {
                 }
             }
             hir::NameRef::Builtin(_builtin_id) => {
-                let Some(func_ty) = lookup_function_type_by_hint(genv, hint) else {
-                    super::util::push_ice(
-                        diagnostics,
-                        format!("Builtin {} not found in environment", hint),
-                    );
-                    return self.error_expr(astptr);
-                };
-                let inst_ty = self.inst_ty(&func_ty);
-                tast::Expr::EVar {
-                    name: hint.to_string(),
-                    ty: inst_ty,
-                    astptr,
-                }
+                // These builtins (ref, vec and array operations) exist only as call forms: the
+                // back end expands each call in place and emits no function of that name.
+                super::util::push_error(
+                    diagnostics,
+                    format!(
+                        "builtin {} can only be called; using it as a value is not supported",
+                        hint
+                    ),
+                );
+                self.error_expr(astptr)
             }
             hir::NameRef::Unresolved(path) => {
                 if path.len() == 1
